@@ -37,6 +37,20 @@ def variables_of_body(stm):
     return out
 
 
+def variables_of_outer(stm, agg):
+    """variables of the statement outside the given aggregate (they are global, hence fixed per instance)"""
+    out = []
+    def rec(n):
+        if n.ast_type == ASTType.BodyAggregate and n == agg:
+            return
+        if n.ast_type == ASTType.Variable:
+            out.append(n.name)
+        for c in astspec.children(n):
+            rec(c)
+    rec(stm)
+    return out
+
+
 def is_eq_lit(lit):
     """X = t or t = X (or not X != t) with X a variable; returns (var name, other term) candidates"""
     out = []
@@ -123,6 +137,19 @@ def falsified(text, flags, rec=None):
             for l in places:
                 if l.ast_type == ASTType.Literal and l.atom.ast_type == ASTType.SymbolicAtom and "_" in variables(l):
                     keys.add("Hyp_no_anon_group")
+        # D37: a #sum element whose tuple does not contain every variable of its condition atoms: equal values of
+        #      different groups are one tuple in the source and distinct chain tuples afterwards
+        if "sum_chains" in on:
+            for a in baggs:
+                if a.function in (AggregateFunction.Sum, AggregateFunction.SumPlus):
+                    for e in a.elements:
+                        tv = set(v for t in e.terms for v in variables(t))
+                        cv = set()
+                        for l in e.condition:
+                            if l.ast_type == ASTType.Literal and l.atom.ast_type == ASTType.SymbolicAtom:
+                                cv |= set(variables(l))
+                        if (cv - tv - {"_"}) - set(variables_of_outer(stm, a)):
+                            keys.add("Hyp_tuple_covers_group")
         # C11b: symmetry next to an aggregate that mentions a compared variable
         if "symmetry" in on and baggs:
             cmpvars = set()
